@@ -69,6 +69,8 @@ impl WorldCtx {
 pub struct C02 {
     pub ctx: WorldCtx,
     sweep: Vec<(Exp, Dir, usize)>,
+    /// every world message once: (exp, dir, index into messages_dir)
+    per_msg: Vec<(Exp, Dir, usize)>,
 }
 
 /// body lengths around every boundary the property names
@@ -130,8 +132,55 @@ impl C02 {
                 }
             }
         }
-        C02 { ctx, sweep }
+        let mut per_msg = Vec::new();
+        for e in Exp::ALL {
+            for d in [Dir::Client, Dir::Server] {
+                for k in 0..ctx.model(e).messages_dir(d).len() {
+                    per_msg.push((e, d, k));
+                }
+            }
+        }
+        C02 { ctx, sweep, per_msg }
     }
+}
+
+/// shapes of ONE message chosen greedily so that every branch / enumerator token the model peer can reach within
+/// `cands` candidates occurs at least once (at most `keep` frames)
+pub fn shape_cover(m: &Model<'static>, exp: Exp, dir: Dir, c: &crate::wowm::Container, rng: &mut Rng, cands: u64, keep: usize) -> (Vec<Value>, Vec<String>, usize) {
+    let mut frames = Vec::new();
+    let mut names = Vec::new();
+    let mut seen_tokens = std::collections::BTreeSet::new();
+    let mut seen = std::collections::BTreeSet::new();
+    for s in 0..cands {
+        if frames.len() >= keep {
+            break;
+        }
+        let knobs = match s % 6 {
+            0 => Knobs { avoid_cond_flag_branches: 85, ..Knobs::default() },
+            1 => Knobs { max_arr: 0, max_str: 0, avoid_cond_flag_branches: 85, ..Knobs::default() },
+            2 => Knobs { max_arr: 6, max_str: 40, size_budget: 6000, avoid_cond_flag_branches: 85, ..Knobs::default() },
+            3 => Knobs { take_optional: Some(true), avoid_cond_flag_branches: 85, ..Knobs::default() },
+            4 => Knobs { take_optional: Some(false), avoid_cond_flag_branches: 100, ..Knobs::default() },
+            _ => Knobs { avoid_cond_flag_branches: 30, ..Knobs::default() },
+        };
+        let Ok(f) = m.encode(c, rng, &knobs) else { continue };
+        if f.wire_body().len() > max_expressible_body(exp, dir) {
+            continue;
+        }
+        if !seen.insert(format!("{}|{}", f.shape, f.plain.len().min(64))) {
+            continue;
+        }
+        let adds = f.shape.split(',').any(|t| !seen_tokens.contains(t));
+        if !frames.is_empty() && !adds {
+            continue;
+        }
+        for t in f.shape.split(',') {
+            seen_tokens.insert(t.to_string());
+        }
+        frames.push(bytes_to_json(&world_wire(exp, dir, &f)));
+        names.push(f.name.clone());
+    }
+    (frames, names, seen_tokens.len())
 }
 
 pub fn max_expressible_body(exp: Exp, dir: Dir) -> usize {
@@ -194,7 +243,7 @@ impl Check for C02 {
         "exploration"
     }
     fn rule(&self) -> String {
-        "Each run is one simulated session: 1-12 world messages (values obtained by decoding model-peer frames; for the length sweep a WARDEN_DATA message of an exact body length followed by a second message) are written with the library's writers (sync/tokio/async-std, short writes, Pending, EINTR) onto one SimPipe stream and read back with the opcode-enum reader or the typed expect helper under a scheduled chunking. Compressed messages are included with large incompressible payloads (their writers are overridden). After a successful read a typed helper is also asked for the WRONG type: it must return an opcode error and still consume exactly the announced bytes. Every enumerated run and a quarter of the sampled sessions are repeated through the encrypting writers and decrypting readers (fixed key, real wow_srp halves; violations of that pass carry the prefix 'encrypted:'). Enumerated part: every body length in 0..16, 0x7FF0..0x8010, 0xFFE8..0x10010 (and a few more) x 3 expansions x 2 directions, as far as the header form can express it. A run is non-trivial when at least one message was written and read and a chunk boundary, Pending or EINTR fell strictly inside a message; distinct = distinct event-log hashes (every transport call, every oracle verdict).".into()
+        "Each run is one simulated session: 1-12 world messages (values obtained by decoding model-peer frames; for the length sweep a WARDEN_DATA message of an exact body length followed by a second message) are written with the library's writers (sync/tokio/async-std, short writes, Pending, EINTR) onto one SimPipe stream and read back with the opcode-enum reader or the typed expect helper under a scheduled chunking. Compressed messages are included with large incompressible payloads (their writers are overridden). After a successful read a typed helper is also asked for the WRONG type: it must return an opcode error and still consume exactly the announced bytes. Every enumerated run and a quarter of the sampled sessions are repeated through the encrypting writers and decrypting readers (fixed key, real wow_srp halves; violations of that pass carry the prefix 'encrypted:'). Enumerated part: (a) for EVERY world message one session made of up to 6 shapes of that message, chosen greedily out of 48 model-peer candidates so that every branch / enumerator the model reaches occurs at least once; (b) every body length in 0..16, 0x7FF0..0x8010, 0xFFE8..0x10010 (and a few more) x 3 expansions x 2 directions, as far as the header form can express it. A run is non-trivial when at least one message was written and read and a chunk boundary, Pending or EINTR fell strictly inside a message; distinct = distinct event-log hashes (every transport call, every oracle verdict).".into()
     }
     fn assumptions(&self) -> Vec<String> {
         vec![
@@ -213,7 +262,7 @@ impl Check for C02 {
             Tier::Quick => 1,
             Tier::Thorough => 4,
         };
-        (self.sweep.len() as u64 * reps, match tier {
+        (self.sweep.len() as u64 * reps + self.per_msg.len() as u64 * reps, match tier {
             Tier::Quick => env_u64("VERIF_C02_RUNS", 60_000),
             Tier::Thorough => env_u64("VERIF_C02_RUNS", 3_000_000),
         })
@@ -224,7 +273,11 @@ impl Check for C02 {
         let mut wl = rng.fork("workload");
         let mut sr = rng.fork("schedule");
         let mut cf = rng.fork("config");
-        if i < n_enum {
+        let n_sweep = self.sweep.len() as u64 * match tier {
+            Tier::Quick => 1,
+            Tier::Thorough => 4,
+        };
+        if i < n_sweep {
             let (exp, dir, len) = self.sweep[(i % self.sweep.len() as u64) as usize];
             let rep = i / self.sweep.len() as u64;
             let m = self.ctx.model(exp);
@@ -240,6 +293,24 @@ impl Check for C02 {
             return json!({"kind": "sweep", "label": format!("{}:{}:{}:len={:#x}", exp.name(), dir.name(), warden_name(dir), len),
                 "exp": exp.name(), "dir": dir.name(), "warden": [[0, len]], "frames": frames, "names": names,
                 "wflavour": wfl.name(), "rflavour": rfl.name(), "rentry": entry, "wsched": sched_json(&ws), "rsched": sched_json(&rs), "encrypted_too": true});
+        }
+        if i < n_enum {
+            // per-message shape coverage: one session made of the shapes of ONE message that together cover every
+            // branch / enumerator the model peer reaches, followed by nothing else (the next read must hit EOF exactly)
+            let j = i - n_sweep;
+            let (exp, dir, k) = self.per_msg[(j % self.per_msg.len() as u64) as usize];
+            let m = self.ctx.model(exp);
+            let c = m.messages_dir(dir)[k];
+            let (frames, names, tokens) = shape_cover(m, exp, dir, c, &mut wl, 48, 6);
+            let total: usize = frames.iter().map(|f| json_to_bytes(f).len()).sum();
+            let wfl = pick_flavour(&mut cf);
+            let rfl = pick_flavour(&mut cf);
+            let entry = if j % 2 == 0 { "enum" } else { "expect" };
+            let ws = if cf.chance(1, 2) { Schedule::whole() } else { Schedule::random(&mut sr, total, wfl == Flavour::Sync) };
+            let rs = if cf.chance(1, 3) { Schedule::whole() } else { Schedule::random(&mut sr, total, rfl == Flavour::Sync) };
+            return json!({"kind": "per-message", "label": format!("{}:{}:{}:shapes={}", exp.name(), dir.name(), c.name, frames.len()), "tokens": tokens,
+                "exp": exp.name(), "dir": dir.name(), "frames": frames, "names": names, "wrong_expect": [], "warden": [],
+                "wflavour": wfl.name(), "rflavour": rfl.name(), "rentry": entry, "wsched": sched_json(&ws), "rsched": sched_json(&rs), "encrypted_too": j % 3 == 0});
         }
         let exp = *cf.pick(&Exp::ALL);
         let dir = if cf.chance(1, 2) { Dir::Client } else { Dir::Server };
@@ -318,6 +389,11 @@ impl Check for C02 {
         inject_wardens(&mut wl, exp, dir, sc);
         if sc["kind"] == "sweep" {
             o.count("sweep_runs", 1);
+        }
+        if sc["kind"] == "per-message" {
+            o.count("per_message_runs", 1);
+            o.count("per_message_shape_tokens", sc["tokens"].as_u64().unwrap_or(0));
+            o.count("per_message_frames", frames.len() as u64);
         }
         if wl.msgs.is_empty() {
             return o;
